@@ -4,6 +4,7 @@ pub mod engine;
 pub mod ethip;
 pub mod hist;
 pub mod mutate;
+pub mod netns;
 pub mod props_acl;
 pub mod props_codec;
 pub mod props_conf;
@@ -12,7 +13,9 @@ pub mod props_ra;
 pub mod rfc4861;
 pub mod props_crash;
 pub mod props_dnsfunc;
+pub mod props_dnswire;
 pub mod rfc1035;
+pub mod wire_dns;
 pub mod props_dhcp;
 pub mod rfc2131;
 
@@ -25,9 +28,33 @@ pub fn level_of(id: &str) -> &'static str {
     }
 }
 
+pub fn has_wire_tier(id: &str) -> bool {
+    matches!(id, "C03" | "C04" | "C05" | "C06" | "C07" | "C08" | "C15" | "C16")
+}
+
+/// Enter the private namespaces if this property has a wire tier.  Ok(true) = wire available.
+pub fn prepare_wire(id: &str) -> Result<bool, String> {
+    if !has_wire_tier(id) || std::env::var("VCHECK_NO_WIRE").is_ok() {
+        return Ok(false);
+    }
+    if !std::path::Path::new(&format!("{}/erbium-dns", wire_dns::REPO_BIN_DIR)).exists() {
+        return Err("erbium binaries not built (run ./setup.sh)".into());
+    }
+    netns::enter_private_namespaces()?;
+    Ok(true)
+}
+
 /// Run one property's check; returns the exit code.
 pub fn run_check(id: &str, tier: Tier) -> i32 {
+    let wire = prepare_wire(id);
     let ctx = Ctx::new(id, tier, level_of(id));
+    let wire_ok = match &wire {
+        Ok(b) => *b,
+        Err(e) => {
+            ctx.assume(format!("wire tier unavailable: {}", e));
+            false
+        }
+    };
     match id {
         "C01" => {
             ctx.rule("generated DHCP histories (DISCOVER/REQUEST x clock advance x pool change x reopen) against handle_pkt+Pool; oracle: grant ledger kept by the harness; non-trivial = some address granted to >=2 clients over time AND a grant made while another client holds an address of the same pool; distinct = hash of the history");
@@ -62,7 +89,19 @@ pub fn run_check(id: &str, tier: Tier) -> i32 {
             ctx.rule("structured: generated messages (1..2000 records, names sharing suffixes at every depth, all rdata kinds, EDNS options) -> erbium DNSPkt -> serialise -> crate parser (equality) and independent RFC 1035 decoder (field-by-field at RFC bit positions, pointer audit); bytes: harness-encoded messages under three compression modes with 0..2 byte edits, accepted inputs re-encoded and compared; non-trivial = pointer inside rdata, or > 16 KiB, or EDNS options / accepted multi-record input");
             props_codec::run_c14_func(&ctx);
         }
+        "C03" => {
+            ctx.rule("relay: generated client queries (names of 1..7 labels with arbitrary octets and mixed case, any type but ANY, EDNS sizes/DO/NSID/cookie/unknown options, CD/AD, UDP and TCP, IPv4-mapped and IPv6 sources) x generated upstream replies (any rcode incl. extended, 0..24 records over three sections, every rdata kind erbium re-encodes plus opaque types, compression off/owners/all) through the real erbium-dns with a scripted upstream; a quarter asked again after 0..2.1 s (cache); oracle: independent RFC 1035 decoder on both sides: id, QR, question, rcode, the three sections record by record, TTL equal / aged; non-trivial = upstream reply with authority or additional records, non-zero rcode or name-bearing rdata");
+            if !wire_ok {
+                ctx.set_inconclusive("C03 is decided on the wire only and the wire rig is unavailable");
+            } else {
+                props_dnswire::run_c03(&ctx);
+            }
+        }
         "C04" => {
+            if wire_ok {
+                ctx.rule("wire-size: generated queries (no EDNS / advertised sizes 0,1,511,512,513,1232,4096,65535,random; UDP and TCP) x upstream replies of 12..40000 octets through the real erbium-dns; oracle: independent decoder accepts, UDP length <= max(512, advertised), dropped records <=> TC, TCP complete");
+                props_dnswire::run_c04_wire(&ctx);
+            }
             ctx.rule("truncate: generated messages x size limits placed at/around every record boundary or absolute 512..65535 through serialise_with_size; oracle: independent decoder accepts, len<=limit, fits => identical to full, else TC + proper record prefix; non-trivial = full encoding within 32 octets of the limit or above it");
             props_codec::run_c04_func(&ctx);
         }
@@ -137,6 +176,15 @@ pub fn run_replay(path: &str) -> i32 {
         .or_else(|| props_ra::replay(id, sub, case))
         .or_else(|| props_acl::replay(id, sub, case))
         .or_else(|| props_policy::replay(id, sub, case));
+    let res = match res {
+        Some(r) => Some(r),
+        None => {
+            if let Err(e) = prepare_wire(id) {
+                eprintln!("wire rig unavailable: {}", e);
+            }
+            props_dnswire::replay(id, sub, case)
+        }
+    };
     match res {
         None => {
             eprintln!("no replayer for {} / {}", id, sub);
